@@ -414,6 +414,8 @@ Section Eval.
     | NIndex item idx => mval item e (fun x e1 => mval idx e1 (fun y e2 => of_result (index_value x y, e2)))
     | NRange from to incl step =>
         mval from e (fun a e1 => mval to e1 (fun b e2 =>
+          (* an inclusive end must be an integer before anything else happens (the step is evaluated after it) *)
+          if incl && negb (match b with VInt _ => true | _ => false end) then munsup e2 else
           let finish (s : value) (e3 : menv) : mres :=
             match a, b, s with
             | VInt za, VInt zb, VInt zs =>
